@@ -26,7 +26,10 @@ use anyhow::{Context, Result};
 use env_logger::Env;
 use log::{error, info, warn};
 use signal_hook::consts::signal::{SIGHUP, SIGINT, SIGTERM};
+#[cfg(not(quandary_verif))]
 use signal_hook::iterator::Signals;
+#[cfg(quandary_verif)]
+use quandary::verif::signal::Signals;
 
 use quandary::io::socket::SUPPORTS_LOCAL_ADDRESS_SELECTION;
 use quandary::server::{RrlParams, TsigKeyMap};
@@ -251,11 +254,14 @@ fn set_up_signal_handling() -> Result<Signals> {
     // This sets up signal handlers to exit immediately if a second
     // termination signal arrives before the process finishes shutting
     // down gracefully.
+    #[cfg(not(quandary_verif))]
     for sig in term_signals {
         signal_hook::flag::register_conditional_shutdown(*sig, 1, already_terminating.clone())?;
         signal_hook::flag::register(*sig, already_terminating.clone())?;
     }
 
+    #[cfg(quandary_verif)]
+    let _ = (term_signals, &already_terminating);
     Signals::new(all_signals).map_err(Into::into)
 }
 
@@ -288,4 +294,11 @@ fn reload_zones_and_keys(
 #[cfg(quandary_verif)]
 pub fn verif_reload(config_path: &Path, server: &Server, catalog: &Catalog) -> Result<Arc<Catalog>> {
     reload_zones_and_keys(&ReloadSource::Config(config_path), server, catalog)
+}
+
+/// Verification hook: exposes the daemon's main function (configuration loading, socket
+/// binding, zone loading, the signal loop and graceful shutdown).
+#[cfg(quandary_verif)]
+pub fn verif_try_running(run_args: RunArgs) -> Result<()> {
+    try_running(run_args)
 }
